@@ -2,32 +2,222 @@ package an
 
 import (
 	_ "embed"
+	"fmt"
+	"go/types"
+	"sort"
 	"strings"
 	"sync"
+
+	"golang.org/x/tools/go/ssa"
 )
 
-// known_funcs.txt lists every function of the module that existed when the rules were confirmed against the
-// tree (regenerate deliberately with `scverif list-funcs > an/known_funcs.txt`). It is used for one thing
-// only: a callee that is NOT in the list is a helper the rules have never seen, so the interpreters look
-// through it instead of treating the call as an opaque atom. It never decides a verdict by itself.
+// known_funcs.txt / known_fields.txt describe the module as it was when the rules were confirmed against it
+// (regenerate deliberately with `scverif list-funcs` / `scverif list-fields`). They are used for two things only,
+// neither of which decides a verdict by itself:
+//   - a callee that is NOT in the list is a helper the rules have never seen, so the analyses look through it
+//     instead of treating the call as an opaque atom (TransparentCallee);
+//   - a function or struct field that disappeared while exactly one new one with the same signature / type and
+//     position appeared is taken to be a RENAME: the rules keep addressing it by its reference name.
 //
 //go:embed known_funcs.txt
 var knownFuncsTxt string
 
+//go:embed known_fields.txt
+var knownFieldsTxt string
+
+type knownFunc struct{ pkg, qname, sig string }
+
+type knownField struct {
+	strct string
+	idx   int
+	name  string
+	typ   string
+}
+
 var (
-	knownOnce sync.Once
-	knownSet  map[string]bool
+	knownOnce   sync.Once
+	knownSet    map[string]bool
+	knownFuncsL []knownFunc
+	knownFlds   map[string][]knownField
 )
 
-// KnownFunc reports whether the qualified function name existed on the reference tree.
-func KnownFunc(qname string) bool {
+func loadKnown() {
 	knownOnce.Do(func() {
 		knownSet = map[string]bool{}
 		for _, l := range strings.Split(knownFuncsTxt, "\n") {
-			if l = strings.TrimSpace(l); l != "" && !strings.HasPrefix(l, "#") {
-				knownSet[l] = true
+			if l = strings.TrimSpace(l); l == "" || strings.HasPrefix(l, "#") {
+				continue
 			}
+			p := strings.Split(l, "\t")
+			kf := knownFunc{qname: p[0]}
+			if len(p) == 3 {
+				kf = knownFunc{pkg: p[0], qname: p[1], sig: p[2]}
+			}
+			knownSet[kf.qname] = true
+			knownFuncsL = append(knownFuncsL, kf)
+		}
+		knownFlds = map[string][]knownField{}
+		for _, l := range strings.Split(knownFieldsTxt, "\n") {
+			if l = strings.TrimSpace(l); l == "" || strings.HasPrefix(l, "#") {
+				continue
+			}
+			p := strings.Split(l, "\t")
+			if len(p) != 4 {
+				continue
+			}
+			var idx int
+			fmt.Sscanf(p[1], "%d", &idx)
+			knownFlds[p[0]] = append(knownFlds[p[0]], knownField{p[0], idx, p[2], p[3]})
 		}
 	})
+}
+
+// KnownFunc reports whether the qualified function name existed on the reference tree.
+func KnownFunc(qname string) bool {
+	loadKnown()
 	return knownSet[qname]
+}
+
+func sigString(fn *ssa.Function) string {
+	return types.TypeString(fn.Signature, func(p *types.Package) string { return p.Path() })
+}
+
+// computeAliases detects renamed functions and struct fields of the loaded program (see above).
+func (p *Program) computeAliases() {
+	loadKnown()
+	p.funcAlias = map[*ssa.Function]string{}
+	p.aliasByOld = map[string]*ssa.Function{}
+	p.fieldAlias = map[string]string{}
+	// functions
+	present := map[string]*ssa.Function{}
+	for fn := range p.AllFuncs {
+		if fn.Parent() != nil || fn.Package() == nil || fn.Origin() != nil {
+			continue
+		}
+		present[fn.String()] = fn
+	}
+	type group struct {
+		missing []knownFunc
+		added   []*ssa.Function
+	}
+	groups := map[string]*group{}
+	key := func(pkg, q, sig string) string {
+		// the receiver type is part of the qualified name: "(*pkg.T).name" -> "(*pkg.T)"
+		recv := ""
+		if i := strings.LastIndex(q, ")."); strings.HasPrefix(q, "(") && i > 0 {
+			recv = q[:i+1]
+		}
+		return pkg + "|" + recv + "|" + sig
+	}
+	for _, kf := range knownFuncsL {
+		if kf.sig == "" {
+			continue
+		}
+		if _, ok := present[kf.qname]; !ok {
+			k := key(kf.pkg, kf.qname, kf.sig)
+			if groups[k] == nil {
+				groups[k] = &group{}
+			}
+			groups[k].missing = append(groups[k].missing, kf)
+		}
+	}
+	for q, fn := range present {
+		if knownSet[q] {
+			continue
+		}
+		k := key(fn.Package().Pkg.Path(), q, sigString(fn))
+		if groups[k] == nil {
+			groups[k] = &group{}
+		}
+		groups[k].added = append(groups[k].added, fn)
+	}
+	for _, g := range groups {
+		if len(g.missing) == 1 && len(g.added) == 1 {
+			p.funcAlias[g.added[0]] = g.missing[0].qname
+			p.aliasByOld[g.missing[0].qname] = g.added[0]
+		}
+	}
+	// struct fields
+	for _, pk := range p.Pkgs {
+		scope := pk.Types.Scope()
+		for _, n := range scope.Names() {
+			tn, ok := scope.Lookup(n).(*types.TypeName)
+			if !ok {
+				continue
+			}
+			st, ok := tn.Type().Underlying().(*types.Struct)
+			if !ok {
+				continue
+			}
+			sq := pk.Types.Path() + "." + n
+			old := knownFlds[sq]
+			if len(old) == 0 || len(old) != st.NumFields() {
+				continue
+			}
+			oldNames, newNames := map[string]bool{}, map[string]bool{}
+			for _, o := range old {
+				oldNames[o.name] = true
+			}
+			for i := 0; i < st.NumFields(); i++ {
+				newNames[st.Field(i).Name()] = true
+			}
+			sort.Slice(old, func(i, j int) bool { return old[i].idx < old[j].idx })
+			for i := 0; i < st.NumFields(); i++ {
+				f := st.Field(i)
+				o := old[i]
+				if f.Name() != o.name && !newNames[o.name] && !oldNames[f.Name()] &&
+					types.TypeString(f.Type(), func(p *types.Package) string { return p.Path() }) == o.typ {
+					p.fieldAlias[sq+"."+f.Name()] = o.name
+				}
+			}
+		}
+	}
+}
+
+// refName: the reference name of fn if it is a renamed function, "" otherwise.
+func refName(fn *ssa.Function) string {
+	if currentProg == nil || fn == nil {
+		return ""
+	}
+	return currentProg.funcAlias[fn]
+}
+
+// SigString is the signature text stored in known_funcs.txt.
+func SigString(fn *ssa.Function) string { return sigString(fn) }
+
+// ListFields renders known_fields.txt for the loaded program.
+func ListFields(p *Program) []string {
+	var out []string
+	for _, pk := range p.Pkgs {
+		scope := pk.Types.Scope()
+		for _, n := range scope.Names() {
+			tn, ok := scope.Lookup(n).(*types.TypeName)
+			if !ok {
+				continue
+			}
+			st, ok := tn.Type().Underlying().(*types.Struct)
+			if !ok {
+				continue
+			}
+			for i := 0; i < st.NumFields(); i++ {
+				f := st.Field(i)
+				out = append(out, fmt.Sprintf("%s.%s\t%d\t%s\t%s", pk.Types.Path(), n, i, f.Name(), types.TypeString(f.Type(), func(p *types.Package) string { return p.Path() })))
+			}
+		}
+	}
+	sort.Strings(out)
+	return out
+}
+
+// Renames lists what was recognised as renamed (for the evidence).
+func (p *Program) Renames() []string {
+	var out []string
+	for fn, old := range p.funcAlias {
+		out = append(out, fmt.Sprintf("function %s is addressed by its reference name %s", ModRel(fn.String()), ModRel(old)))
+	}
+	for k, old := range p.fieldAlias {
+		out = append(out, fmt.Sprintf("field %s is addressed by its reference name %s", ModRel(k), old))
+	}
+	sort.Strings(out)
+	return out
 }
